@@ -225,8 +225,12 @@ def _flow_cases(tier):
           'single_CONCAT_SAME', 'single_BMM_CONST', 'single_MEAN')]
   if tier == 'thorough':
     names = names + list(P.skeleton_family('thorough_dags'))[:300]
-  return [(s, r) for s in names for r in ('a8w8', 'a16w8',
-                                          'only_last_op_SRQ8')]
+  cs = [(s, r) for s in names for r in ('a8w8', 'a16w8', 'only_last_op_SRQ8')]
+  # every single-operator skeleton with a rule that selects that operator
+  # alone (no neighbour collects statistics for its operands)
+  cs += [(s, 'only_last_op_SRQ8') for s in fam
+         if s.startswith('single_') and s not in names]
+  return cs
 
 
 def _replay_flow(c):
